@@ -19,11 +19,22 @@ def splitContours : List Op → List Op → List (List Op)
   | .closePath :: ops, acc => (acc ++ [.closePath]) :: splitContours ops []
   | o :: ops, acc => splitContours ops (acc ++ [o])
 
+def opPts : Op → List P
+  | .moveTo p => [p] | .lineTo p => [p] | .curveTo a b c => [a, b, c] | .closePath => []
+
+/-- direction-blind key of one drawn contour: the sorted multiset of its on- and off-curve coordinates -/
+def opsKey (ops : List Op) : List P := (ops.flatMap opPts).mergeSort ptLe
+
 /-- `ordered = true`: same contours in the same order (nothing lost, duplicated or reordered);
     `ordered = false` (a skip-export list spliced components in): the same multiset of contours -/
 def holdsOutline (ordered : Bool) (tol : Q) (gs : GlyphSet) (g : Glyph) (obs : List Op) : Bool :=
   match specOutline tol gs g with
-  | .ok ops => if ordered then obs == ops else (splitContours obs []).isPerm (splitContours ops [])
+  | .ok ops =>
+    if !nonsingularFrom (gs.length + 1) gs g then
+      -- a singular component (det = 0) collapses the outline to a line or a point: contour direction carries no meaning
+      -- there (and depends on the traversal order of the code); only the point multisets are compared
+      ((splitContours obs []).map opsKey).isPerm ((splitContours ops []).map opsKey)
+    else if ordered then obs == ops else (splitContours obs []).isPerm (splitContours ops [])
   | .error _ => false
 
 def holdsAdvance (g : Glyph) (obs : Int) : Bool := obs == otRound g.width && decide (0 ≤ obs)
